@@ -55,13 +55,18 @@ for sid, patch in items:
                 new, _old = framework.classify(cache[rid], p)
                 und = [i for i in cache[rid] if i["status"] == "undecided"]
                 if new:
-                    fired.add(rid)
+                    # "~" marks a detection that rests only on a count floor / missing anchor (fail-closed), not on a clause of the rule
+                    soft = all(i.get("key") == "floor" or (i.get("kind") == "anchor-missing") for i in new)
+                    fired.add(rid + ("~" if soft else ""))
                 elif und:
                     fired.add(rid + "?")
             if fired:
                 det[p] = sorted(fired)
         if not sid.startswith("selftest:"):
-            mx[sid] = {p: [r for r in rs if not r.endswith("?")] for p, rs in det.items() if any(not r.endswith("?") for r in rs)}
+            mx[sid] = {p: [r.rstrip("~") for r in rs if not r.endswith("?")] for p, rs in det.items() if any(not r.endswith("?") for r in rs)}
+            softonly = [p for p, rs in det.items() if rs and all(r.endswith(("~", "?")) for r in rs)]
+            if softonly:
+                print(sid, "   (detected only through count floors / anchors for: %s)" % " ".join(softonly), flush=True)
         own = sid.split("-")[0] if not sid.startswith("selftest:") else None
         flag = "" if own is None or own in det else "   (own property %s: MISSED)" % own
         print(sid, "->", " ".join("%s[%s]" % (p, ",".join(rs)) for p, rs in sorted(det.items())) or "MISSED", flag, flush=True)
